@@ -89,12 +89,16 @@ pub fn scenarios(tier: Tier) -> Vec<Scenario> {
                 add(&ms, 16, 3);
             }
             for ms in multisets(ROLES.len(), 3) {
-                add(&ms, 1, 2);
+                // roles that bring their own threads (channeled delivery, pool jobs) or can end
+                // in a known hang make the tree wide: two or more of them -> bound 1
+                let heavy = ms.iter().filter(|r| matches!(**r, 3 | 4 | 6 | 7 | 8 | 10)).count();
+                add(&ms, 1, if heavy >= 2 { 1 } else { 2 });
             }
             for ms in multisets(ROLES.len(), 4) {
-                // four clients: bound 1, and only programs that dispatch
+                // four clients: non-preemptive schedules only (every order in which blocked or
+                // finished tasks hand over), and only programs that dispatch
                 if ms.contains(&0) {
-                    add(&ms, 1, 1);
+                    add(&ms, 1, 0);
                 }
             }
         }
